@@ -193,7 +193,9 @@ theorem apply_hist (hist : List Nat) (hd : Desc hist) (hp : ∀ x ∈ hist, 0 < 
     let a := histServer hist ks i s.offsetID s.limit
     let s' := s.apply a.1 a.2
     (pending hist s = [] ∧ bufHas s' = false) ∨
-    (bufHas s' = true ∧ pending hist s' = pending hist s ∧ s'.limit = s.limit) := by
+    (bufHas s' = true ∧ pending hist s' = pending hist s ∧ s'.limit = s.limit ∧
+      0 < (below hist s.offsetID).length ∧
+      (s'.lastBatch = false → (below hist s'.offsetID).length + s.limit = (below hist s.offsetID).length)) := by
   have hb : ¬ s.pos < s.buf.length := by simpa [bufHas_eq] using h
   have hpend : pending hist s = below hist s.offsetID := by
     simp [pending, hlb, List.drop_eq_nil_of_le (Nat.le_of_not_lt hb)]
@@ -223,17 +225,25 @@ theorem apply_hist (hist : List Nat) (hd : Desc hist) (hp : ∀ x ∈ hist, 0 < 
     have hne : (below hist s.offsetID).take s.limit ≠ [] := by
       intro h; rw [h] at hlast; simp at hlast
     have hlenpos := List.length_pos_iff.mpr hne
-    refine ⟨by simpa [bufHas_eq] using hlenpos, ?_, rfl⟩
-    rw [hpend]
-    simp only [pending, List.drop_zero]
-    cases hlbv : lbRule (lbCode k) ((below hist s.offsetID).take s.limit).length s.limit with
-    | true =>
-      have := lastBatch_complete (ks.getD i Kind.slice) (below hist s.offsetID) s.limit (by rw [hk]; exact hlbv)
-      simp [this]
-    | false =>
+    have hrpos : 0 < (below hist s.offsetID).length := by
+      rw [List.length_take] at hlenpos; omega
+    refine ⟨by simpa [bufHas_eq] using hlenpos, ?_, rfl, hrpos, ?_⟩
+    · rw [hpend]
+      simp only [pending, List.drop_zero]
+      cases hlbv : lbRule (lbCode k) ((below hist s.offsetID).take s.limit).length s.limit with
+      | true =>
+        have := lastBatch_complete (ks.getD i Kind.slice) (below hist s.offsetID) s.limit (by rw [hk]; exact hlbv)
+        simp [this]
+      | false =>
+        have := below_last hist hd hp s.offsetID s.limit m hlast
+        simp only [Bool.false_eq_true, if_false, this]
+        exact List.take_append_drop _ _
+    · intro hlbf
+      simp only at hlbf
+      have hfullpg := notLast_full (ks.getD i Kind.slice) (below hist s.offsetID) s.limit (by rw [hk]; exact hlbf)
       have := below_last hist hd hp s.offsetID s.limit m hlast
-      simp only [Bool.false_eq_true, if_false, this]
-      exact List.take_append_drop _ _
+      simp only [this, List.length_drop]
+      omega
 
 theorem runS_exact (hist : List Nat) (hd : Desc hist) (hp : ∀ x ∈ hist, 0 < x) (ks : List Kind) :
     ∀ (fuel i : Nat) (s : Iter), 0 < s.limit → (pending hist s).length < fuel →
@@ -257,7 +267,7 @@ theorem runS_exact (hist : List Nat) (hd : Desc hist) (hp : ∀ x ∈ hist, 0 < 
         rw [runS_stop _ _ _ _ hbh (by rw [apply_lastBatch _ _ _ hlb]; exact hbh)]
         simp [pending_lastBatch hist s hbh hlb]
       | false =>
-        rcases apply_hist hist hd hp ks i s hL hbh hlb with ⟨hp0, hstop⟩ | ⟨hgo, hpe, hlim⟩
+        rcases apply_hist hist hd hp ks i s hL hbh hlb with ⟨hp0, hstop⟩ | ⟨hgo, hpe, hlim, _, _⟩
         · rw [runS_stop _ _ _ _ hbh hstop]
           simp [hp0]
         · rw [runS_go _ _ _ _ hbh hgo]
@@ -267,5 +277,72 @@ theorem runS_exact (hist : List Nat) (hd : Desc hist) (hp : ∀ x ∈ hist, 0 < 
             (by rw [← hpe, hc] at hfuel; simp at hfuel; omega)
           rw [← hpe, hc]
           exact ⟨by simp [this.1], this.2⟩
+
+/-! ### number of requests -/
+
+def ceilDiv (r L : Nat) : Nat := (r + L - 1) / L
+
+theorem ceilDiv_pos (r L : Nat) (hL : 0 < L) (hr : 0 < r) : 1 ≤ ceilDiv r L := by
+  unfold ceilDiv
+  exact (Nat.le_div_iff_mul_le hL).mpr (by omega)
+
+theorem ceilDiv_step (r L : Nat) (hL : 0 < L) (hr : L ≤ r) : ceilDiv (r - L) L + 1 = ceilDiv r L := by
+  unfold ceilDiv
+  rw [Nat.div_eq_sub_div (a := r + L - 1) hL (by omega)]
+  congr 2
+  omega
+
+/-- Requests still to be issued from state `s` (including the final one that discovers the end). -/
+def reqBound (hist : List Nat) (s : Iter) : Nat :=
+  if s.lastBatch then 1 else ceilDiv (below hist s.offsetID).length s.limit + 1
+
+theorem reqBound_adv (hist : List Nat) (s : Iter) : reqBound hist s.adv = reqBound hist s := rfl
+
+theorem runS_reqs (hist : List Nat) (hd : Desc hist) (hp : ∀ x ∈ hist, 0 < x) (ks : List Kind) :
+    ∀ (fuel i : Nat) (s : Iter), 0 < s.limit →
+      (runS (histServer hist ks) fuel i s).reqs.length ≤ reqBound hist s := by
+  intro fuel
+  induction fuel with
+  | zero => intro i s _; simp [runS]
+  | succ fuel ih =>
+    intro i s hL
+    cases hbh : bufHas s with
+    | true =>
+      rw [runS_buf _ _ _ _ hbh]
+      have := ih i s.adv hL
+      rw [reqBound_adv] at this
+      exact this
+    | false =>
+      cases hlb : s.lastBatch with
+      | true =>
+        rw [runS_stop _ _ _ _ hbh (by rw [apply_lastBatch _ _ _ hlb]; exact hbh)]
+        simp [reqBound, hlb]
+      | false =>
+        rcases apply_hist hist hd hp ks i s hL hbh hlb with ⟨_, hstop⟩ | ⟨hgo, _, hlim, hrpos, hnext⟩
+        · rw [runS_stop _ _ _ _ hbh hstop]
+          simp [reqBound, hlb]
+        · rw [runS_go _ _ _ _ hbh hgo]
+          have := ih (i + 1) (s.apply (histServer hist ks i s.offsetID s.limit).1
+              (histServer hist ks i s.offsetID s.limit).2).adv (by simpa [Iter.adv, hlim] using hL)
+          rw [reqBound_adv] at this
+          simp only [List.length_cons]
+          have hcp := ceilDiv_pos (below hist s.offsetID).length s.limit hL hrpos
+          unfold reqBound at this ⊢
+          simp only [hlb, Bool.false_eq_true, if_false]
+          cases hlb' : (s.apply (histServer hist ks i s.offsetID s.limit).1
+              (histServer hist ks i s.offsetID s.limit).2).lastBatch with
+          | true =>
+            simp only [hlb', if_true] at this
+            omega
+          | false =>
+            simp only [hlb', Bool.false_eq_true, if_false, hlim] at this
+            have hn := hnext hlb'
+            have hge : s.limit ≤ (below hist s.offsetID).length := by omega
+            have hs := ceilDiv_step (below hist s.offsetID).length s.limit hL hge
+            have hle : (below hist (s.apply (histServer hist ks i s.offsetID s.limit).1
+                (histServer hist ks i s.offsetID s.limit).2).offsetID).length =
+                (below hist s.offsetID).length - s.limit := by omega
+            rw [hle] at this
+            omega
 
 end TdModel.C39
